@@ -340,7 +340,16 @@ func matchLayout(fr *Frame, cj Conj, segs []*Write, widths []Aff, exp []expSeg, 
 			return false, fmt.Sprintf("%s: unexpected write kind at offset %s (%s)", e.what, w.off.String(), w.pos)
 		}
 	}
-	if len(segs)-i != trailer {
+	// the trailer may be written as separate byte stores or as one multi-byte store: count bytes
+	tb := int64(0)
+	okTB := true
+	for _, w := range widths[i:] {
+		if !w.isConst() {
+			okTB = false
+		}
+		tb += w.c
+	}
+	if !okTB || tb != int64(trailer) {
 		return false, fmt.Sprintf("%d unexpected extra segment(s) after the specified fields", len(segs)-i-trailer)
 	}
 	return true, ""
